@@ -53,7 +53,7 @@ func (c *FakeConn) Close() error {
 	c.mu.Unlock()
 	return nil
 }
-func (c *FakeConn) IsClosed() bool { c.mu.Lock(); defer c.mu.Unlock(); return c.Closed }
+func (c *FakeConn) IsClosed() bool       { c.mu.Lock(); defer c.mu.Unlock(); return c.Closed }
 func (c *FakeConn) LocalAddr() net.Addr  { return fakeAddr("local:1") }
 func (c *FakeConn) RemoteAddr() net.Addr { return fakeAddr("remote:2") }
 func (c *FakeConn) SetDeadline(t time.Time) error {
